@@ -17,7 +17,7 @@ SHARDS = {"quick": 8, "thorough": 16}
 RULE = ("Hypothesis draws structure (nq 1-8, atoms 1-10, 1-6 volumes, 1-6 temperatures from the classes "
         "{0},[0.5,5),[5,2000),[2000,5000] K, weights in [1e-3,1e3], strain fractions in (0.05,0.9) per volume, "
         "Gamma-acoustic slots zero or garbage) and a 32-bit seed that numpy expands into nu in [30,1500] cm^-1, "
-        "gamma in [-3,4], V dgamma/dV in [-5,5], arbitrary pressure fields; every quantity is read a second time after the others; non-trivial = at least one T>0, "
+        "gamma in [-3,4], V dgamma/dV in [-5,5], arbitrary pressure fields; every quantity is read a second time after the others; every second case is followed in the same process by a second calculation sharing part of its input (same first-volume frequencies / same frequencies with other gamma / other weights / other temperatures) that is checked against its own reference; non-trivial = at least one T>0, "
         ">=2 non-acoustic modes (distinct gamma), and non-uniform weights when nq>1; distinct by (structure, seed, strains)")
 ASSUMPTIONS = [
     "reference free energy differentiated numerically in 80-bit floats (7-point stencils, per-mode adaptive step); "
